@@ -139,7 +139,11 @@ def gen_cases(ctx):
         for j in range(rng.choice([0, 1, 2])):
             sq = 'M' + R.gen_protein(rng, 'trypsin', rng.randint(15, 80))
             extra.append(['ENSP9%010d.1' % (i * 10 + j), 'ENST9%010d.1' % (i * 10 + j), 'ENSG9%010d.1' % (i * 10 + j), sq])
-        cases.append(dict(kind='pool_cli', world=world, params=params, extra_prots=extra))
+        case = dict(kind='pool_cli', world=world, params=params, extra_prots=extra)
+        if rng.random() < 0.3:
+            # seeded change C10-8: generateIndex --force on a directory that holds pools of another proteome
+            case['prior_world'] = G.gen_world(rng, small=True, coding_p=0.9, bias='KRKRPMWDEFLCHYCKD')
+        cases.append(case)
     # exhaustive short strings over the rule's own letters (+ one neutral letter)
     maxlen = 3 if ctx.quick else 5
     for rule in names:
